@@ -454,6 +454,12 @@ def scan_family():
                 wf(new, f"scan.edit_index[idx={i} of {n}; the next slice's score depends on the carry]")
                 if not close(w, new.get_score() - tr.get_score()):
                     fail("scan.edit_index: weight != score change", idx=i, w=w)
+                back, w2, _, _ = bwd.edit(jrand.fold_in(KEY, 7), new, Diff.no_change((0.5, xs)))
+                if not (close(w2, -w) and close(back.get_score(), tr.get_score()) and close(back.get_retval()[0], tr.get_retval()[0])
+                        and all(close(back.get_choices()[j, "z"], tr.get_choices()[j, "z"]) for j in range(n))
+                        and close(back.get_retval()[1], tr.get_retval()[1])):
+                    fail("scan.edit_index: the backward request does not restore the trace with weight -w", idx=i, w=w, w2=w2,
+                         score=back.get_score(), want=tr.get_score())
     # index edits (first, middle, last) on a kernel whose carry does not depend on the edited choice
     @gen
     def kadd(c, x):
